@@ -17,8 +17,16 @@ RULE = ("exhaustive small extents (1-3 axes) for shapes/crops; next_fast_len for
         "(Fortran, strided, reversed, read-only, memmap), fractional pad values, pad value left out after having been given; "
         "n-D centre extraction; crops out of an explicitly given convolution shape; masking form in every dtype/layout; unknown "
         "mode names; shared memory without a manager, many live blocks of equal size, special bit patterns, blocks beyond a page. "
+        "Deepened: MatchingData._fourier_padding / fourier_padding / target_padding (every parity, rank 1-3, extents next to fast lengths, "
+        "template larger than the target, batch axes, both paddings), roll by the returned shift + convolution-mode crop (directly and through "
+        "MaxScoreOverRotations._postprocess) with the window clause t -> t + (m-1)//2 evaluated on the real output, topk_indices (ties, k=0, "
+        "k=size, k>size), indices, max_filter_coordinates (negative scores, even/odd sizes), center_of_mass against the exact rational, "
+        "_rigid_transform_matrix for integer rotations, the shapes/axes of the pyFFTW plans build_fft returns (explicit inverse shapes of "
+        "either parity), the shared-memory (buffer, shape, dtype) triple. "
         "distinct = distinct (helper, shapes/parities) tuples; trivial cases (extent-1 axes only) are not counted")
-ASSUMPTIONS = ["pyfftw.next_fast_len is compared with the model for every n below the bound, beyond that it is trusted",
+ASSUMPTIONS = ["pyfftw.next_fast_len is compared with the model for every n below the bound, beyond that it is trusted "
+               "(the model is the least FFTW-fast length; pyFFTW 0.15 returns the least one for requests up to 10000 - its table - and may "
+               "return a larger fast length beyond, first at 10010: there only 'fast and at least the request' is checked)",
                "rfftn/irfftn numerics are pyFFTW's: the round trip is checked on the real code only (tolerance 1e-4 f32 / 1e-10 f64 for "
                "small integers; for scaled data the a-priori bound 8 eps (1+log2 N) sqrt(N) |x|_2 per forward coefficient and "
                "16 eps (1+log2 N) |x|_2 per round-trip sample)"]
@@ -158,7 +166,7 @@ def run(ctx):
     rng = ctx.rng("main")
 
     # ---- next_fast_len contract
-    N = ctx.budget(2048, 8192)
+    N = ctx.budget(2048, 10001)      # (pyFFTW's table of least fast lengths ends at 10000)
     model = d.call("c13.nextFastLenRange", n=N)
     impl = [int(next_fast_len(n)) for n in range(N)]
     ctx.agree("nextFastLen", {"range": N}, impl, model)
@@ -496,6 +504,7 @@ def run(ctx):
     _center_wide(ctx, bes, d)
     _crop_wide(ctx, be, d)
     _shm_wide(ctx, bes)
+    _deep(ctx, bes, d)
 
 
 # =====================================================================================================================
@@ -1057,3 +1066,475 @@ def _shm_wide(ctx, bes):
                 shm.unlink()
             except Exception:  # noqa
                 pass
+
+
+# =====================================================================================================================
+def _extents_around_fast(rng, n, lo=1):
+    """extents 1..8 (every parity), extents next to FFTW-fast lengths, a few larger ones"""
+    from pyfftw import next_fast_len
+    out = []
+    for _ in range(n):
+        r = rng.random()
+        if r < 0.5:
+            out.append(int(rng.integers(lo, 9)))
+        elif r < 0.85:
+            f = int(next_fast_len(int(rng.integers(6, 70))))
+            out.append(max(lo, f + int(rng.integers(-1, 2))))
+        elif r < 0.95:
+            out.append(int(rng.integers(lo, 200)))
+        else:
+            out.append(int(rng.integers(200, 6000)))      # beyond any table a planner might keep
+    return out
+
+
+def _deep(ctx, bes, d):
+    """the remaining pure helpers the searches rely on: MatchingData._fourier_padding (all four results, every branch), roll by
+    the Fourier shift + convolution-mode crop (what the analyzers' _postprocess does), topk_indices, indices,
+    max_filter_coordinates, center_of_mass, _rigid_transform_matrix, build_fft plumbing, the shared-memory triple"""
+    import warnings
+    from tme.matching_data import MatchingData
+    from tme.matching_utils import apply_convolution_mode
+    rng = ctx.rng("deep")
+    be = bes[0][1]
+
+    # ---- _fourier_padding: every parity, rank 1-3, extents around fast lengths, template larger than target, batch axes
+    n = ctx.budget(500, 6000)
+    cases, reqs = [], []
+    for a in range(1, 7):              # exhaustive 1-D, both paddings
+        for b in range(1, 7):
+            for pad in (False, True):
+                cases.append(([a], [b], [0], pad, "exhaustive-1d"))
+    for i in range(n):
+        nd = 1 + i % 3
+        kind = ("template-smaller", "any", "template-larger-somewhere", "batch-axis")[(i // 3) % 4]
+        tg = _extents_around_fast(rng, nd)
+        tp = _extents_around_fast(rng, nd)
+        bm = [0] * nd
+        if kind == "template-smaller":
+            tp = [min(x, y) for x, y in zip(tg, tp)]
+        elif kind == "template-larger-somewhere":
+            ax = int(rng.integers(nd))
+            tp[ax] = tg[ax] + int(rng.integers(1, 6))
+        elif kind == "batch-axis":
+            bm[int(rng.integers(nd))] = 1
+            if rng.random() < 0.5:
+                bm[int(rng.integers(nd))] = 1
+        cases.append((tg, tp, bm, bool(i % 2), kind))
+    for tg, tp, bm, pad, kind in cases:
+        reqs.append(("c13.fourierPadding", {"target": tg, "template": tp, "batch": bm, "pad": pad}))
+    models = d.batch(reqs)
+    clause = "fourier padding: shapes cover the convolution, shift puts the template centre at the reported voxel"
+    post_cases = []
+    for j, ((tg, tp, bm, pad, kind), m) in enumerate(zip(cases, models)):
+        cont = ("int64-array", "int32-array")[j % 2]
+        inp = {"target": tg, "template": tp, "batch_mask": bm, "pad_fourier": pad, "given-as": cont}
+
+        def _fp():
+            with warnings.catch_warnings():
+                warnings.simplefilter("ignore")
+                return MatchingData._fourier_padding(target_shape=_container(cont, tg), template_shape=_container(cont, tp),
+                                                     batch_mask=None if (not any(bm) and j % 3 == 0) else _container(cont, bm),
+                                                     pad_fourier=pad)
+        okc, r = _call(ctx, clause, inp, "fourier_padding", _fp)
+        if not okc:
+            continue
+        try:
+            impl = {"conv": [int(x) for x in r[0]], "fast": [int(x) for x in r[1]], "ft": [int(x) for x in r[2]],
+                    "shift": [int(x) for x in r[3]]}
+        except Exception as e:  # noqa
+            ctx.spec(clause, inp, False, {"result": repr(r)[:200], "raised": type(e).__name__}, key="fourier_padding")
+            continue
+        if isinstance(m, dict) and any(c > 10000 for c in impl["conv"]):
+            # pyFFTW's next_fast_len is the *least* fast length only for requests up to 10000 (its table); beyond that its search may
+            # return a larger fast length (first at 10010).  The model is the least one, so on such axes the planned extent is
+            # checked against the contract (fast, at least the request) instead of the model's number; everything else is compared
+            def _isfast(v):
+                for p_ in (2, 3, 5, 7):
+                    while v % p_ == 0:
+                        v //= p_
+                return v in (1, 11, 13)
+            m = dict(m)
+            m["fast"] = [f if c > 10000 else mf for f, c, mf in zip(impl["fast"], impl["conv"], m["fast"])]
+            m["ft"] = m["fast"][:-1] + [m["fast"][-1] // 2 + 1]
+            ctx.spec(clause, dict(inp, what="planned extent beyond pyFFTW's table is a fast length"),
+                     all(_isfast(f) and f >= c for f, c in zip(impl["fast"], impl["conv"])), impl, key="fourier_padding")
+            ctx.count("fpad:request-beyond-10000")
+        ctx.agree("_fourier_padding", inp, impl, m)
+        # the clause, on the implementation's output alone: conv = max(n, m) (+ m - 1 with padding) off batch axes, planned >= conv,
+        # half spectrum; shift = 0 / 1 - m//2 - m%2 when the template fits
+        ok = True
+        for ax in range(len(tg)):
+            big = max(tg[ax], tp[ax])
+            wantc = big if (bm[ax] or not pad) else big + tp[ax] - 1
+            ok = ok and impl["conv"][ax] == wantc and impl["fast"][ax] >= wantc
+            if tp[ax] <= tg[ax] or bm[ax]:
+                ok = ok and impl["shift"][ax] == (0 if pad else 1 - tp[ax] // 2 - tp[ax] % 2)
+        ok = ok and impl["ft"] == impl["fast"][:-1] + [impl["fast"][-1] // 2 + 1]
+        ctx.spec(clause, inp, ok, impl, key="fourier_padding")
+        ctx.count("fpad:" + kind)
+        ctx.count("fpad:pad-" + str(pad))
+        ctx.count("fpad:ndim=%d" % len(tg))
+        ctx.distinct(("fpad", tuple(tg), tuple(tp), tuple(bm), pad))
+        if not any(bm) and int(np.prod(impl["fast"])) <= 4000:
+            post_cases.append((tg, tp, pad, impl))
+    ctx.sample({"helper": "_fourier_padding", "target": tg, "template": tp, "batch_mask": bm, "pad_fourier": pad, "model": m})
+
+    # through a MatchingData object (fourier_padding reads the shapes and the batch mask the object derived)
+    for i in range(ctx.budget(12, 80)):
+        nd = 1 + i % 3
+        tg = [int(x) for x in rng.integers(1, 8, size=nd)]
+        tp = [int(x) for x in rng.integers(1, 8, size=nd)]
+        pad = bool(i % 2)
+        inp = {"target": tg, "template": tp, "pad_fourier": pad, "through": "MatchingData.fourier_padding"}
+
+        def _obj():
+            with warnings.catch_warnings():
+                warnings.simplefilter("ignore")
+                md = MatchingData(np.zeros(tg, np.float32), np.zeros(tp, np.float32))
+                return md.fourier_padding(pad_fourier=pad) if i % 4 < 2 else md.fourier_padding(pad)
+        okc, r = _call(ctx, clause, inp, "fourier_padding", _obj)
+        if not okc:
+            continue
+        m = d.call("c13.fourierPadding", target=tg, template=tp, batch=[0] * nd, pad=pad)
+        impl = {"conv": [int(x) for x in r[0]], "fast": [int(x) for x in r[1]], "ft": [int(x) for x in r[2]], "shift": [int(x) for x in r[3]]}
+        ctx.agree("MatchingData.fourier_padding", inp, impl, m)
+        ctx.distinct(("fpad-obj", tuple(tg), tuple(tp), pad))
+
+        # target_padding of the same object: template - template % 2 per axis; with it the 'valid' output of the padded target
+        # has the target's own extent again
+        def _tpad():
+            with warnings.catch_warnings():
+                warnings.simplefilter("ignore")
+                md = MatchingData(np.zeros(tg, np.float32), np.zeros(tp, np.float32))
+                return [int(x) for x in (md.target_padding(pad_target=pad) if i % 4 < 2 else md.target_padding(pad))]
+        okc, tpd = _call(ctx, "target padding restores the target extent in valid mode", inp, "target_padding", _tpad)
+        if okc:
+            ctx.agree("MatchingData.target_padding", inp, tpd, d.call("c13.targetPadding", template=tp, batch=[0] * nd, pad=pad))
+            if pad:
+                ctx.spec("target padding restores the target extent in valid mode", inp,
+                         all((n_ + p_) - m_ + m_ % 2 == n_ for n_, m_, p_ in zip(tg, tp, tpd)), tpd, key="target_padding")
+
+    # ---- _set_matching_dimension: the shapes and the batch mask the object hands to _fourier_padding, with batch axes on either side
+    clause_d = "matching dimensions: target shape, template shape and batch mask have one entry per matching dimension"
+    reqs, keep = [], []
+    combos = []
+    for tnd in (1, 2, 3, 4):
+        for pnd in (1, 2, 3, 4):
+            for tdims in [()] + [(a_,) for a_ in range(tnd + 1)] + [(0, 1)] * (tnd >= 2):
+                for pdims in [()] + [(a_,) for a_ in range(pnd + 1)]:
+                    combos.append((tnd, pnd, tdims, pdims))
+    rng.shuffle(combos)
+    for ci, (tnd, pnd, tdims, pdims) in enumerate(combos[:ctx.budget(160, len(combos))]):
+        tg = [int(x) for x in rng.integers(2, 7, size=tnd)]
+        tp = [int(x) for x in rng.integers(2, 7, size=pnd)]
+        pad = bool(ci % 2)
+        inp = {"target": tg, "template": tp, "target_dims": list(tdims), "template_dims": list(pdims), "pad_fourier": pad}
+
+        def _dims():
+            with warnings.catch_warnings():
+                warnings.simplefilter("ignore")
+                md = MatchingData(np.zeros(tg, np.float32), np.zeros(tp, np.float32))
+                td_ = None if not tdims else (tdims[0] if len(tdims) == 1 and ci % 3 == 0 else tuple(tdims))
+                pd_ = None if not pdims else (pdims[0] if len(pdims) == 1 and ci % 3 == 1 else tuple(pdims))
+                try:
+                    md._set_matching_dimension(target_dims=td_, template_dims=pd_)
+                except ValueError:
+                    return "err:ValueError"
+                except IndexError:
+                    return "err:IndexError"
+                out = {"target": [int(x) for x in md._output_target_shape], "template": [int(x) for x in md._output_template_shape],
+                       "batch": [int(x) for x in md._batch_mask]}
+                fp = md.fourier_padding(pad_fourier=pad)
+                return out, {"conv": [int(x) for x in fp[0]], "fast": [int(x) for x in fp[1]], "ft": [int(x) for x in fp[2]], "shift": [int(x) for x in fp[3]]}
+        okc, r = _call(ctx, clause_d, inp, "set_matching_dimension", _dims)
+        if not okc:
+            continue
+        keep.append((inp, r, tg, tp, tdims, pdims, pad))
+        reqs.append(("c13.matchingDims", {"target": tg, "template": tp, "tdims": list(tdims), "pdims": list(pdims)}))
+    fp_reqs, fp_keep = [], []
+    for (inp, r, tg, tp, tdims, pdims, pad), m in zip(keep, d.batch(reqs)):
+        impl = r if isinstance(r, str) else r[0]
+        ctx.agree("_set_matching_dimension", inp, impl, m)
+        ctx.count("dims:" + ("rejected" if isinstance(impl, str) else "target-batch=%d,template-batch=%d" % (len(tdims), len(pdims))))
+        ctx.distinct(("dims", len(tg), len(tp), tdims, pdims))
+        if isinstance(impl, dict):
+            # (what the bookkeeping should yield for unusual combinations of batch axes is not part of this property: the three
+            # vectors are compared with the model, and the clause is only that they have one entry per matching dimension)
+            ctx.spec(clause_d, inp, len(impl["target"]) == len(impl["template"]) == len(impl["batch"]), impl, key="set_matching_dimension")
+            fp_keep.append((inp, r[1]))
+            fp_reqs.append(("c13.fourierPadding", {"target": impl["target"], "template": impl["template"], "batch": impl["batch"], "pad": pad}))
+    for (inp, fpi), m in zip(fp_keep, d.batch(fp_reqs)):
+        ctx.agree("MatchingData.fourier_padding(batch axes)", inp, fpi, m)
+
+    # ---- roll by that shift, then the convolution-mode crop: exactly what MaxScoreOverRotations._postprocess does to its maps
+    clause_w = "roll by the Fourier shift + crop reads the raw map at t + (m-1)//2"
+    reqs, keep = [], []
+    rng.shuffle(post_cases)
+    for (tg, tp, pad, fp) in post_cases[:ctx.budget(220, 2500)]:
+        mode = ("same", "valid", "full")[len(keep) % 3]
+        fast = fp["fast"]
+        nd = len(tg)
+        raw = np.arange(int(np.prod(fast)), dtype=np.int64).reshape(fast)
+        inp = {"target": tg, "template": tp, "pad_fourier": pad, "mode": mode, "fast": fast, "conv": fp["conv"], "shift": fp["shift"]}
+
+        def _pp():
+            x = be.roll(raw, shift=tuple(fp["shift"]), axis=tuple(range(nd)))
+            return np.asarray(apply_convolution_mode(x, convolution_mode=mode, s1=tuple(tg), s2=tuple(tp), convolution_shape=tuple(fp["conv"])))
+        if mode == "valid" and any(b > a for a, b in zip(tg, tp)):
+            ctx.count("post:valid-negative-extent")
+            continue
+        okc, got = _call(ctx, clause_w, inp, "postprocess-window", _pp)
+        if not okc:
+            continue
+        keep.append((inp, got, tg, tp, pad, mode, fast))
+        reqs.append(("c13.postMap", {"mode": mode, "shape": fast, "data": raw.reshape(-1).tolist(), "shift": fp["shift"],
+                                     "conv": fp["conv"], "s1": tg, "s2": tp}))
+    post_models = d.batch(reqs)
+    # the same through the analyzer object itself (scores and rotations both carry the raw index)
+    from multiprocessing.managers import SharedMemoryManager
+    from tme.analyzer import MaxScoreOverRotations
+    with SharedMemoryManager() as smh:
+        for k_, ((inp, got, tg, tp, pad, mode, fast), m) in enumerate(zip(keep, post_models)):
+            if k_ % 4 and not ctx.thorough:
+                continue
+            if got.size == 0:
+                ctx.count("post:empty-output-not-sent-through-shared-memory")     # (a block of size 0 cannot be created)
+                continue
+            raw = np.arange(int(np.prod(fast)), dtype=np.int64).reshape(fast)
+
+            def _an():
+                an = MaxScoreOverRotations(scores=raw.astype(np.float32), rotations=raw.astype(np.int32), shared_memory_handler=smh,
+                                           thread_safe=False)
+                an._postprocess(targetshape=tuple(tg), templateshape=tuple(tp), convolution_shape=tuple(inp["conv"]),
+                                fourier_shift=tuple(inp["shift"]), convolution_mode=mode, shared_memory_handler=smh,
+                                fast_shape=tuple(fast))
+                sc = np.array(be.from_sharedarr(an.scores))
+                ro = np.array(be.from_sharedarr(an.rotations))
+                return tuple(an.shape), sc, ro
+            okc, r = _call(ctx, clause_w, dict(inp, through="MaxScoreOverRotations._postprocess"), "postprocess-window", _an)
+            if not okc:
+                continue
+            shp, sc, ro = r
+            for nm, arr_ in (("scores", sc), ("rotations", ro)):
+                ctx.agree("MaxScoreOverRotations._postprocess(" + nm + ")", inp,
+                          {"shape": list(arr_.shape), "data": [int(x) for x in arr_.reshape(-1)]}, m)
+            ctx.spec(clause_w, dict(inp, what="shape attribute"), list(shp) == list(sc.shape), key="postprocess-window")
+            ctx.count("post:through-analyzer")
+    for (inp, got, tg, tp, pad, mode, fast), m in zip(keep, post_models):
+        ctx.agree("roll+apply_convolution_mode", inp, {"shape": list(got.shape), "data": got.reshape(-1).tolist()}, m)
+        ctx.count("post:" + mode)
+        ctx.distinct(("post", tuple(tg), tuple(tp), pad, mode))
+        if mode == "same" and got.size and got.shape == tuple(tg):
+            # independent of the model: output voxel t shows raw voxel t + (m-1)//2 -- for every t with full padding (any template
+            # extent), and for every t whose window lies inside the target without it
+            pos = np.stack(np.unravel_index(got.reshape(-1), fast), axis=-1).reshape(tuple(tg) + (len(tg),))
+            t = np.stack(np.indices(tg), axis=-1)
+            want = t + (np.asarray(tp) - 1) // 2
+            if pad:
+                sel = np.ones(tg, bool)
+            else:
+                sel = np.all((t >= np.asarray(tp) // 2) & (t <= np.asarray(tg) - 1 - (np.asarray(tp) - 1) // 2), axis=-1)
+                if any(b > a for a, b in zip(tg, tp)):
+                    sel[...] = False
+            okw = bool(np.array_equal(pos[sel], want[sel]))
+            ctx.spec(clause_w, inp, okw, None if okw else {"first-bad": [int(x) for x in np.argwhere(sel & np.any(pos != want, axis=-1))[0]]},
+                     key="postprocess-window")
+
+    # ---- topk_indices
+    clause_k = "topk_indices: k distinct positions holding the k largest values, largest first"
+    reqs, keep = [], []
+    for i in range(ctx.budget(200, 2500)):
+        nd = 1 + i % 3
+        sh = [int(x) for x in rng.integers(1, (14, 6, 4)[nd - 1] + 1, size=nd)]
+        size = int(np.prod(sh))
+        kind = ("distinct", "ties", "all-equal", "negative")[(i // 3) % 4]
+        if kind == "distinct":
+            vals = rng.permutation(size).astype(np.int64) - size // 2
+        elif kind == "ties":
+            vals = rng.integers(-2, 3, size=size)
+        elif kind == "all-equal":
+            vals = np.full(size, int(rng.integers(-3, 4)))
+        else:
+            vals = -rng.permutation(size).astype(np.int64) - 1
+        kk = [0, 1, size, size + 1, size + 3, max(1, size // 2), int(rng.integers(0, size + 1))][i % 7]
+        dt = np.dtype([np.float32, np.float64, np.int32][i % 3])
+        arr = vals.reshape(sh).astype(dt)
+        inp = {"shape": sh, "k": kk, "values": vals.tolist(), "dtype": dt.name, "kind": kind}
+        try:
+            r = be.topk_indices(arr, kk)
+            impl = {"idx": [[int(x) for x in ax] for ax in r], "vals": [int(v) for v in arr[tuple(r)]]}
+        except ValueError:
+            impl = "err:KthOutOfBounds"
+        except Exception as e:  # noqa
+            ctx.spec(clause_k, inp, False, {"raised": type(e).__name__ + ": " + str(e)[:120]}, key="topk_indices")
+            continue
+        keep.append((inp, impl, kind, vals, sh, kk))
+        reqs.append(("c13.topk", {"shape": sh, "data": vals.tolist(), "k": kk}))
+    for (inp, impl, kind, vals, sh, kk), m in zip(keep, d.batch(reqs)):
+        distinct_vals = len(set(vals.tolist())) == len(vals)
+        if isinstance(impl, str) or isinstance(m, str) or distinct_vals:
+            ctx.agree("topk_indices", inp, impl, m)
+        else:
+            # ties: which of the equal voxels is returned is the sort's business; the values are not
+            ctx.agree("topk_indices(values)", inp, impl["vals"], m["vals"])
+        if isinstance(impl, dict):
+            flat = [int(np.ravel_multi_index(p, sh)) for p in zip(*impl["idx"])] if kk else []
+            okk = len(flat) == kk and len(set(flat)) == kk and impl["vals"] == sorted(impl["vals"], reverse=True)
+            if okk and 0 < kk < len(vals):
+                rest = np.delete(vals, flat)
+                okk = int(rest.max()) <= impl["vals"][-1]
+            ctx.spec(clause_k, inp, okk, impl, key="topk_indices")
+        else:
+            ctx.spec(clause_k, inp, kk > len(vals), impl, key="topk_indices:rejected")
+        ctx.count("topk:" + kind)
+        ctx.count("topk:" + ("k=0" if kk == 0 else "k=size" if kk == len(vals) else "k>size" if kk > len(vals) else "0<k<size"))
+        ctx.distinct(("topk", tuple(sh), kk, kind))
+
+    # ---- indices
+    for sh in [(1,), (4,), (2, 3), (3, 1), (2, 2, 3), (1, 4, 2), (5, 2)]:
+        okc, r = _call(ctx, "indices: entry [a, i...] is i_a", {"shape": sh}, "indices", lambda: np.asarray(be.indices(sh)))
+        if okc:
+            ctx.agree("indices", {"shape": sh}, {"shape": list(r.shape), "data": [int(x) for x in r.reshape(-1)]}, d.call("c13.indices", shape=list(sh)))
+            ctx.distinct(("indices", sh))
+
+    # ---- max_filter_coordinates (integer scores; plateaus and border voxels included)
+    clause_f = "max_filter_coordinates: reported voxels are those no voxel of their window exceeds"
+    reqs, keep = [], []
+    for i in range(ctx.budget(150, 1500)):
+        nd = 1 + i % 3
+        sh = [int(x) for x in rng.integers(1, (12, 6, 4)[nd - 1] + 1, size=nd)]
+        size_ = int(rng.integers(1, 6))
+        vals = rng.integers((0, -4, -100, -9)[(i // 3) % 4], (3, 5, 100, -2)[(i // 3) % 4], size=sh)     # (negative scores: the border rule matters)
+        dt = np.dtype([np.float32, np.float64][i % 2])
+        inp = {"shape": sh, "min_distance": size_, "values": vals.reshape(-1).tolist(), "dtype": dt.name}
+        okc, r = _call(ctx, clause_f, inp, "max_filter_coordinates", lambda: np.asarray(be.max_filter_coordinates(vals.astype(dt), size_)))
+        if not okc:
+            continue
+        keep.append((inp, [[int(x) for x in row] for row in r]))
+        reqs.append(("c13.maxFilter", {"shape": sh, "data": vals.reshape(-1).tolist(), "size": size_}))
+        ctx.count("maxfilter:size-" + ("even" if size_ % 2 == 0 else "odd"))
+        ctx.distinct(("maxfilter", tuple(sh), size_))
+    for (inp, impl), m in zip(keep, d.batch(reqs)):
+        ctx.agree("max_filter_coordinates", inp, impl, m)
+        vals = np.asarray(inp["values"]).reshape(inp["shape"])
+        gmax = [list(map(int, p)) for p in np.argwhere(vals == vals.max())]
+        ctx.spec(clause_f, inp, all(p in impl for p in gmax), None, key="max_filter_coordinates")
+
+    # ---- center_of_mass with integer weights against the exact rational value
+    clause_c = "center_of_mass = sum(w x) / sum(w) over the voxels above the cutoff"
+    reqs, keep = [], []
+    for i in range(ctx.budget(150, 1500)):
+        nd = 1 + i % 3
+        sh = [int(x) for x in rng.integers(1, (12, 6, 4)[nd - 1] + 1, size=nd)]
+        kind = ("positive", "signed", "single-voxel", "sparse")[(i // 3) % 4]
+        if kind == "positive":
+            vals = rng.integers(1, 9, size=sh)
+        elif kind == "signed":
+            vals = rng.integers(-4, 9, size=sh)
+        elif kind == "single-voxel":
+            vals = np.zeros(sh, np.int64)
+            vals.reshape(-1)[int(rng.integers(vals.size))] = int(rng.integers(1, 9))
+        else:
+            vals = rng.integers(0, 9, size=sh) * (rng.random(sh) < 0.3)
+        cut = [None, 0, 2, -1, 0][i % 5]
+        dt = np.dtype([np.float64, np.float32, np.float64][i % 3])
+        inp = {"shape": sh, "values": vals.reshape(-1).tolist(), "cutoff": cut, "dtype": dt.name, "kind": kind}
+        fn = (lambda: be.center_of_mass(vals.astype(dt))) if cut is None else (lambda: be.center_of_mass(vals.astype(dt), cutoff=cut)) if i % 2 else (lambda: be.center_of_mass(vals.astype(dt), cut))
+        with np.errstate(all="ignore"):
+            okc, r = _call(ctx, clause_c, inp, "center_of_mass", lambda: [float(x) for x in np.asarray(fn())])
+        if not okc:
+            continue
+        keep.append((inp, r, dt))
+        reqs.append(("c13.centerOfMass", {"shape": sh, "data": vals.reshape(-1).tolist(), "hasCut": cut is not None, "cut": 0 if cut is None else cut}))
+        ctx.count("com:" + kind)
+        ctx.count("com:cutoff-" + str(cut))
+    for (inp, r, dt), m in zip(keep, d.batch(reqs)):
+        if any(den == 0 for _, den in m):
+            ctx.count("com:zero-mass")          # 0/0: not a number in the implementation, no rational value in the model
+            continue
+        tol = 1e-9 if dt == np.float64 else 2e-4
+        exact = [num / den for num, den in m]
+        ctx.agree("center_of_mass", inp, r, exact,
+                  eq=lambda a, b: len(a) == len(b) and all(abs(x - y) <= tol * (1.0 + abs(y)) * max(1.0, sum(abs(v) for v in inp["values"]) / max(1, abs(m[0][1]))) for x, y in zip(a, b)))
+        ctx.distinct(("com", tuple(inp["shape"]), inp["cutoff"], inp["kind"]))
+
+    # ---- _rigid_transform_matrix: integer inverse rotations (signed permutations, shears), integer centre and translation
+    clause_r = "rigid transform matrix = T(-t) C(c) R^-1 C(-c)"
+    reqs, keep = [], []
+    for i in range(ctx.budget(60, 600)):
+        nd = 2 + i % 2
+        if i % 3 == 2:
+            R = np.eye(nd, dtype=np.int64)
+            R[0, 1] = int(rng.integers(-2, 3))
+        else:
+            perm = rng.permutation(nd)
+            R = np.zeros((nd, nd), np.int64)
+            for a_, b_ in enumerate(perm):
+                R[a_, b_] = int(rng.choice([-1, 1]))
+        rinv = np.rint(np.linalg.inv(R.astype(np.float64))).astype(np.int64)
+        c = rng.integers(-6, 7, size=nd)
+        t = rng.integers(-6, 7, size=nd)
+        inp = {"rotation": R.tolist(), "center": c.tolist(), "translation": t.tolist()}
+        okc, M = _call(ctx, clause_r, inp, "rigid_transform_matrix",
+                       lambda: np.asarray(be._rigid_transform_matrix(rotation_matrix=R.astype(np.float32), translation=t.astype(np.float32), center=c.astype(np.float32))))
+        if not okc:
+            continue
+        Mi = np.rint(M).astype(np.int64)
+        ctx.spec(clause_r, inp, bool(np.max(np.abs(M - Mi)) <= 1e-4), None, key="rigid_transform_matrix")
+        keep.append((inp, {"matrix": Mi.tolist(), "offset": Mi[:nd, nd].tolist()}, rinv, c, t))
+        reqs.append(("c13.rigidMatrix", {"rinv": rinv.tolist(), "center": c.tolist(), "translation": t.tolist()}))
+        ctx.distinct(("rigid", tuple(R.reshape(-1).tolist()), tuple(c.tolist()), tuple(t.tolist())))
+    for (inp, impl, rinv, c, t), m in zip(keep, d.batch(reqs)):
+        ctx.agree("_rigid_transform_matrix", inp, impl, m)
+        ctx.spec(clause_r, inp, impl["offset"] == (-t + c - rinv @ c).tolist(), impl, key="rigid_transform_matrix")
+
+    # ---- build_fft plumbing: shapes / axes of the two plans, explicit inverse shape (same half length, other parity)
+    clause_b = "build_fft: forward plan fast -> half spectrum, inverse plan half spectrum -> inverse shape, all axes"
+    for i, fast in enumerate([(5,), (6,), (6, 7), (7, 6), (4, 5, 6), (3, 4, 9), (1, 8), (8, 1, 3)]):
+        ft = fast[:-1] + (fast[-1] // 2 + 1,)
+        flip = fast[:-1] + (fast[-1] + 1 if fast[-1] % 2 == 0 else max(1, fast[-1] - 1),)
+        for inv in (None, fast, flip, fast[:-1] + (fast[-1] + 2,)):
+            for dt, cdt in ((np.float32, np.complex64), (np.float64, np.complex128))[i % 2:i % 2 + 1]:
+                inp = {"fast": list(fast), "ft": list(ft), "inverse": None if inv is None else list(inv), "dtype": np.dtype(dt).name}
+                try:
+                    kw = {} if inv is None else {"inverse_fast_shape": inv}
+                    rf, irf = be.build_fft(fast_shape=fast, fast_ft_shape=ft, real_dtype=dt, complex_dtype=cdt, **kw)
+                    impl = {"fwdIn": list(rf.input_shape), "fwdOut": list(rf.output_shape), "fwdAxes": [int(x) for x in rf.axes],
+                            "invIn": list(irf.input_shape), "invOut": list(irf.output_shape), "invAxes": [int(x) for x in irf.axes]}
+                except ValueError:
+                    impl = "err:CannotAvoidCopy"
+                except Exception as e:  # noqa
+                    ctx.spec(clause_b, inp, False, {"raised": type(e).__name__ + ": " + str(e)[:120]}, key="build_fft")
+                    continue
+                m = d.call("c13.buildFft", fast=list(fast), ft=list(ft), hasInverse=inv is not None, inverse=list(inv or ()))
+                ctx.agree("build_fft(plumbing)", inp, impl, m)
+                if inv is None or tuple(inv) == tuple(fast):
+                    ctx.spec(clause_b, inp, isinstance(impl, dict) and impl["fwdIn"] == list(fast) and impl["fwdOut"] == list(ft)
+                             and impl["invIn"] == list(ft) and impl["invOut"] == list(fast)
+                             and impl["fwdAxes"] == list(range(len(fast))) and impl["invAxes"] == list(range(len(fast))), impl, key="build_fft")
+                ctx.distinct(("buildfft", fast, inv))
+
+    # ---- to_sharedarr / from_sharedarr as (buffer, shape, item size) triples
+    for i in range(ctx.budget(8, 40)):
+        sh = [int(x) for x in rng.integers(1, 5, size=1 + i % 3)]
+        dt = np.dtype([np.int32, np.float64, np.uint8, np.complex64][i % 4])
+        arr = rng.integers(0, 200, size=sh).astype(dt)
+        shm = None
+        try:
+            shm, shp, sdt = be.to_sharedarr(arr)
+            back = np.ascontiguousarray(be.from_sharedarr((shm, shp, sdt)))
+            impl = {"size": int(shm.size), "shape": [int(x) for x in shp], "read": list(back.tobytes())}
+            m = d.call("c13.shared", shape=sh, itemsize=int(dt.itemsize), bytes=list(arr.tobytes()), slack=int(shm.size) - int(arr.nbytes))
+            del back
+            ctx.agree("to_sharedarr/from_sharedarr(triple)", {"shape": sh, "dtype": dt.name}, impl, m)
+            ctx.distinct(("shm-triple", tuple(sh), dt.name))
+        except Exception as e:  # noqa
+            ctx.spec("shared memory reads back identical in another process", {"shape": sh, "dtype": dt.name}, False,
+                     {"raised": type(e).__name__ + ": " + str(e)[:120]}, key="sharedarr")
+        finally:
+            if shm is not None:
+                try:
+                    shm.close()
+                    shm.unlink()
+                except Exception:  # noqa
+                    pass
